@@ -23,6 +23,8 @@ class G:
         self.r = rng
         self.style = style
         self.defs = []       # (label, dest, title or None)
+        self.allow_nl = True  # False while generating single-line content (ATX headings)
+        self.toplevel = True  # False while generating the contents of a list item (columns are no longer those of the line start)
         self.nlabel = 0
 
     # ---------------- inlines: return (markdown, html); single line unless noted
@@ -112,9 +114,11 @@ class G:
         # reference styles
         self.nlabel += 1
         if kind == 1:       # full
-            label = "ref%d" % self.nlabel
+            label = "ref%d" % self.nlabel if self.r.random() < 0.6 else "ref%d %s" % (self.nlabel, self.word())
             self.defs.append((label, d, t))
             use = label.upper() if self.r.random() < 0.3 and self.style != "format" else label
+            if " " in use and self.style != "format" and self.allow_nl and self.r.random() < 0.6:
+                use = use.replace(" ", "\n", 1)        # the label continues on the next line
             m = "[%s][%s]" % (tm, use)
         else:
             # collapsed / shortcut: the text is the label; make it unique and plain
@@ -192,7 +196,9 @@ class G:
 
     def atx(self):
         n = 1 + self.r.randrange(6)
+        self.allow_nl = False
         m, h = self.line()
+        self.allow_nl = True
         closing = ""
         if self.style != "format":
             closing = self.r.choice(["", "", " #", " " + "#" * n, "  ##  "])
@@ -256,6 +262,9 @@ class G:
         for l in lines:
             if self.style == "format":
                 out.append("> " + l if l else ">")
+            elif depth == 0 and self.toplevel and l.startswith("  ") and self.r.random() < 0.5:
+                # a tab after '>' at column 0 reaches the tab stop at column 4: one column is the optional space, two remain
+                out.append(">\t" + l[2:])
             else:
                 out.append((">" if self.r.random() < 0.15 and l and not l.startswith((" ", "\t")) else "> ") + l if l else self.r.choice([">", "> "]))
         return out, "<blockquote>\n%s</blockquote>\n" % html
@@ -274,6 +283,8 @@ class G:
         for i in range(nitems):
             marker = ("%d%s" % (start + i, delim)) if ordered else bullet
             width = len(marker) + pad
+            saved = self.toplevel
+            self.toplevel = False
             if loose:
                 nb = 1 + self.r.randrange(2 if depth >= 2 else 3)
                 if nitems == 1:
@@ -289,6 +300,7 @@ class G:
                     sub, subh = self.lst_tight_simple(avoid=(bullet if not ordered else ""))
                     lines += sub
                     item_html = "<li>%s\n%s</li>\n" % (hh, subh)
+            self.toplevel = saved
             first, rest = lines[0], lines[1:]
             out.append(marker + " " * pad + first)
             for l in rest:
@@ -352,9 +364,27 @@ class G:
             prev = k
         return lines, html
 
+    def twin_code_blocks(self):
+        """two top-level fenced code blocks of exactly the same length, the second of which contains a line made of fence
+        characters (state carried from one block to the next must not leak)"""
+        ch = self.r.choice("`~")
+        L = 3 + self.r.randrange(3)
+        first = "".join(self.r.choice("abcxyz") for _ in range(L))
+        second = ch * L
+        n1, n2 = 3, L + 1
+        # same total length: pad the first block's fence to the second's
+        b1 = [ch * n2, first, ch * n2]
+        b2 = [ch * n2, second, ch * n2]
+        h = "<pre><code>%s\n</code></pre>\n" % esc(first) + "<p>%s</p>\n" % "b" + "<pre><code>%s\n</code></pre>\n" % esc(second)
+        return b1 + ["", "b", ""] + b2, h
+
     def document(self):
         n = 1 + self.r.randrange(4)
         lines, html = self.blocks(0, n)
+        if self.r.random() < 0.08:
+            tl, th = self.twin_code_blocks()
+            lines = lines + [""] + tl
+            html += th
         if self.defs:
             lines.append("")
             for label, d, t in self.defs:
